@@ -430,3 +430,30 @@ theorem applyEdits_validate : ∀ (ops : List EditOp) (c : Chart), Tidy c → c.
 
 end Chart
 end Sismic
+
+namespace Sismic
+namespace Chart
+
+/-- **Well-formed statecharts are valid**: what `validate()` checks (`SoundRefs`) is part of W4 and W6, so
+    every well-formed statechart with duplicate-free dictionaries (`tidyExtraB`, decidable) meets the hypotheses of the editing
+    theorems of C16 (consistent dictionaries, `validate()` passes). -/
+theorem validate_of_wf (c : Chart) (h : WFChart c) (hp : tidyExtraB c = true) :
+    Tidy c ∧ c.validate = true := by
+  have ht := tidy_of_wf c h hp
+  refine ⟨ht, (validate_iff c ht).2 ?_⟩
+  intro s hs
+  have hst := stateFor_of_mem c h.names s hs
+  constructor
+  · intro hk i hi
+    obtain ⟨i', hi', hpi⟩ := h.initial s.name s hst hk
+    rw [hi] at hi'
+    cases hi'
+    exact hpi
+  · intro hk m hm
+    obtain ⟨p, m', hp1, _, hm', hp2, hne⟩ := h.history s.name s hst hk
+    rw [hm] at hm'
+    cases hm'
+    exact ⟨hne, p, hp1, hp2⟩
+
+end Chart
+end Sismic
